@@ -21,13 +21,13 @@ func init() {
 	register(&Rule{ID: "C07.R3", Prop: "C07", Floor: 6,
 		Doc: "one view of the pool: v1 and v2 pool lists are consulted together and feed the same spent sets",
 		Run: c07r3})
-	register(&Rule{ID: "C07.R4", Prop: "C07", Floor: 2,
+	register(&Rule{ID: "C07.R4", Prop: "C07", Floor: 1,
 		Doc: "disjoint selection: candidates taken by one loop are sliced off before another loop takes from the same slice",
 		Run: c07r4})
 	register(&Rule{ID: "C07.R8", Prop: "C07", Floor: 6,
 		Doc: "unconfirmed candidates exclude outputs spent by later pooled transactions (every pool loop deletes spent ids from the element map)",
 		Run: c07r8})
-	register(&Rule{ID: "C07.R9", Prop: "C07", Floor: 6, Doc: "ids of outputs created by pooled transactions are derived with positions of the output list (same check as C13.R10, package wallet)", Run: func(c *Ctx) { derivedIDDomains(c, "wallet") }})
+	register(&Rule{ID: "C07.R9", Prop: "C07", Floor: 2, Doc: "ids of outputs created by pooled transactions are derived with positions of the output list (same check as C13.R10, package wallet)", Run: func(c *Ctx) { derivedIDDomains(c, "wallet") }})
 	register(&Rule{ID: "C07.R6", Prop: "C07", Floor: 3,
 		Doc: "selection and reservation happen in one critical section (no unlock between them)",
 		Run: c07r6})
